@@ -68,10 +68,14 @@ def gen_case(r, n_ex=None):
         if method == 'POST':
             n = r.choice([0, 1, 10, 30, 4095, 4096, 4097, 9000])
             body = bytes(r.randrange(256) for _ in range(n)) if n <= 30 else bytes([r.randrange(256)]) * n     # (long runs: cheap Coq literals)
+        if k and not exs[-1]['eof_after'] and exs[-1]['m']['wf'] and r.random() < .1:
+            # the server drops the idle persistent connection: the request written on it gets no byte back, only the end of
+            # the stream (RFC 7230 6.3.1); the script goes on with the next exchange on a new connection
+            m = dict(m, bytes=b'', wf=False, expect=None, truncated=True, tags=m['tags'] + ['dropped-reuse'])
         data = m['bytes']
-        cuts = r.choice(c08.segmentations(r, data, 5))
+        cuts = r.choice(c08.segmentations(r, data, 5)) if data else []
         delim_close = m['wf'] and m['expect']['delim'] == 'close'
-        eof_after = True if (last or delim_close) else r.random() < .2
+        eof_after = True if (last or delim_close or not data) else r.random() < .2
         exs.append({'m': m, 'cuts': cuts, 'method': method, 'body': body, 'url': 'http://h.test/p%d?k=%d' % (r.randrange(1000), k),
                     'eof_after': eof_after})
     return {'force': force, 'exs': exs}
